@@ -8,7 +8,7 @@ import leafdsl as L
 from coqemit import cbool, clist, copt, cstrlist, outcome
 
 ID = "C02"
-FACTS = ["Bool", "Leaf"]
+FACTS = ["Bool", "Leaf", "LeafSrc"]
 COQ_HEADER = "From SPV Require Import CorrDefs.CorrC02."
 COQ_CASE_TYPE = "case"
 RULE = ("dataclasses with 1-4 fields over the CLI grammar {int,float,str,bool,Path,Enum,Literal, List[item], Tuple[items] fixed "
